@@ -25,6 +25,7 @@ TRUSTED = [
     "traffic interleaved) on real agents under ASan + UBSan + LSan, comparing open descriptors before/after, and counting "
     "main-loop dispatches per idle virtual second (no-spin)",
 ]
+PTCP_RST = bytes(13) + bytes([4]) + bytes(10)      # pseudo-TCP header: conversation 0, flags = RST
 IDLE_RATE_LIMIT = 60      # dispatches per idle virtual second tolerated (Ta = 20 ms pacing gives 50/s while checks run)
 
 
@@ -88,7 +89,19 @@ def program(rng, tier):
         kind = rng.choice(["stream", "stream", "gather", "creds", "cands", "run", "run", "send", "restart", "restartstream",
                            "rmstream", "consentlost", "relay", "sdp", "attach", "detach", "setrole", "selpair", "getsel",
                            "forgetrelays", "q", "localcands", "remotecands", "res", "closeasync", "unref"] +
-                          (["rawtcp"] * 5 if use_tcp else []))
+                          (["rawtcp"] * 5 if use_tcp else []) + (["peerdgram"] * 6 + ["attach2"] * 3 if reliable else ["attach2"]))
+        if kind == "peerdgram":
+            # reliable agents: what the selected peer address may send — a pseudo-TCP reset (the connection dies, the component
+            # fails, its sockets are detached), stray pseudo-TCP segments, garbage — also after the connection has died and the
+            # application has moved its callbacks to another context
+            pk = rng.choice([PTCP_RST, PTCP_RST, PTCP_RST[:12] + bytes([0, 0]) + PTCP_RST[14:] + b"late data", bytes(rng.randrange(256) for _ in range(30))])
+            ops.append(f"injectsel {ag} {sid} 1 {pk.hex()}")
+            ops.append(f"run {rng.choice([5, 50, 400])}")
+            continue
+        if kind == "attach2":
+            ops.append(f"attach2 {ag} {sid}")
+            ops.append(f"run {rng.choice([0, 20, 300])}")
+            continue
         if kind == "rawtcp":
             name = rng.choice(["x", "y"])
             what = rng.choice(["conn", "conn", "frame", "partial", "partial", "close", "close"])
